@@ -243,6 +243,42 @@ impl Caps for zoo::CDefault {
     }
 }
 
+impl Caps for zoo::CPlainDefault {
+    caps_join_mut!();
+    fn slice_view(st: &ReadStorage<Self>, occupied: &BTreeSet<u32>, probe: &[u32]) -> Option<SliceView> {
+        let s = st.as_slice();
+        let mut idx: BTreeSet<usize> = occupied.iter().map(|i| *i as usize).collect();
+        if s.len() <= 20_000 {
+            idx.extend(0..s.len());
+        } else {
+            for p in probe {
+                for d in 0..3usize {
+                    idx.insert((*p as usize).saturating_sub(d));
+                    idx.insert(*p as usize + d);
+                }
+            }
+            idx.insert(s.len().saturating_sub(1));
+        }
+        let at = idx
+            .into_iter()
+            .filter(|i| *i < s.len() || occupied.contains(&(*i as u32)))
+            .map(|i| {
+                if i < s.len() {
+                    (i, s[i].check().map(|_| s[i].ident()), occupied.contains(&(i as u32)))
+                } else {
+                    (i, Err(format!("slice of length {} does not cover occupied index {}", s.len(), i)), true)
+                }
+            })
+            .collect();
+        Some(SliceView::Indexed { len: s.len(), at })
+    }
+    fn slice_write(st: &mut WriteStorage<Self>, index: u32, _nth: usize, payload: u32) -> Option<Ident> {
+        let s = st.as_mut_slice();
+        s[index as usize].set_payload(payload);
+        Some(s[index as usize].ident())
+    }
+}
+
 impl Caps for zoo::CDense {
     caps_join_mut!();
     fn slice_view(st: &ReadStorage<Self>, _occupied: &BTreeSet<u32>, _probe: &[u32]) -> Option<SliceView> {
@@ -495,9 +531,18 @@ fn vio(prop: &str, sig: &str, msg: String) -> Violation {
     Violation::new(prop, sig, msg)
 }
 
-fn build_world<C: Caps>(pool: &Pool) -> (World, Vec<Entity>, Vec<u32>) {
+fn build_world<C: Caps>(pool: &Pool, how: usize) -> (World, Vec<Entity>, Vec<u32>) {
     let mut world = World::new();
-    world.setup::<WriteStorage<C>>();
+    // the storage becomes known to the world in one of several ways; entity deletion must reach it in all
+    match how % 4 {
+        0 => world.setup::<WriteStorage<C>>(),
+        1 => world.setup::<ReadStorage<C>>(),
+        2 => world.register_with_storage::<_, C>(|| <C::Storage as specs::storage::TryDefault>::unwrap_default()),
+        _ => {
+            world.insert(specs::storage::MaskedStorage::<C>::new(<C::Storage as specs::storage::TryDefault>::unwrap_default()));
+            world.register_with_storage::<_, C>(|| <C::Storage as specs::storage::TryDefault>::unwrap_default());
+        }
+    }
     world.register::<CAux>();
     let mut probe = vec![];
     let cands: Vec<Entity> = match pool {
@@ -538,7 +583,7 @@ fn build_world<C: Caps>(pool: &Pool) -> (World, Vec<Entity>, Vec<u32>) {
 impl<C: Caps> Seq<C> {
     fn new(case: &SeqCase, mode: &Mode) -> Seq<C> {
         zoo::ledger_reset();
-        let (world, cands, probe) = build_world::<C>(&case.pool);
+        let (world, cands, probe) = build_world::<C>(&case.pool, case.ops.len() / 2);
         let n = cands.len();
         let mut alive = vec![true; n];
         for a in alive.iter_mut().skip(n - 3) {
@@ -1451,10 +1496,15 @@ impl<C: Caps> Seq<C> {
                 }
             }
             SOp::DeleteAll => {
-                // only the candidates are known to the model: delete them in one batch
-                let batch: Vec<Entity> = (0..self.cands.len()).filter(|k| self.alive[*k]).map(|k| self.cands[k]).collect();
-                let r = self.world.as_mut().unwrap().delete_entities(&batch);
-                ensure!("C02", "delete-result", r.is_ok(), "delete_entities of live entities failed: {:?}", r);
+                // either the candidates in one batch, or really everything (in sparse / layered pools that is a
+                // batch of thousands of entities of which only the candidates hold components)
+                if self.cands.len() % 2 == 0 {
+                    self.world.as_mut().unwrap().delete_all();
+                } else {
+                    let batch: Vec<Entity> = (0..self.cands.len()).filter(|k| self.alive[*k]).map(|k| self.cands[k]).collect();
+                    let r = self.world.as_mut().unwrap().delete_entities(&batch);
+                    ensure!("C02", "delete-result", r.is_ok(), "delete_entities of live entities failed: {:?}", r);
+                }
                 for k in 0..self.cands.len() {
                     if self.alive[k] {
                         self.kill_model(k, &mut ex);
